@@ -17,6 +17,11 @@ SEQ_ASSUME = [
 PROPS = {}
 
 
+WEAKHASH_RULE = ("; change detection: on the five buffered JSON classes x both context kinds, a value is replaced inside the context by one whose encoding collides with it "
+                 "under the fingerprints a cheaper change detection would use (length, byte sum / xor, Adler-32 / Fletcher, equal ends) - 24 ordered pairs; the file after the exit "
+                 "and a fresh object must show the new value (the model assumes the hash of the buffered bytes is collision-free)")
+
+
 def seq_prop(pid, corr_profiles, oracle_profiles, rule, extra_assume=(), quick=(80, 120), thorough=(1200, 2000), steps=28):
     PROPS[pid] = dict(
         suites=[("unit_seq_corr", corr_profiles, quick[0], thorough[0], steps),
@@ -44,6 +49,8 @@ PROPS["C12"]["suites"] = list(PROPS["C12"]["suites"]) + [dict(unit="unit_c08_uns
 # outside writers do meanwhile (the conflict scenarios of C07, judged for their read-only files)
 PROPS["C17"]["suites"] = list(PROPS["C17"]["suites"]) + [dict(unit="unit_c07_scenarios", special="c07")]
 PROPS["C11"]["suites"] = list(PROPS["C11"]["suites"]) + [dict(unit="unit_c11_foreign", special="c11f")]
+PROPS["C12"]["suites"] = list(PROPS["C12"]["suites"]) + [dict(unit="unit_weak_hash", special="weakhash")]
+PROPS["C12"]["rule"] += WEAKHASH_RULE
 
 
 BUF_FAMS = [1, 2, 4, 5]
@@ -67,6 +74,9 @@ def buf_prop(pid, corr_profiles, twin_profiles, rule, c07=False, extra_assume=()
     if pid == "C06":
         suites.append(dict(unit="unit_c06_handles", special="c06h"))
         suites.append(dict(unit="unit_c06_sessions", special="c06s"))
+    if pid in ("C05", "C06"):
+        suites.append(dict(unit="unit_weak_hash", special="weakhash"))
+        rule += WEAKHASH_RULE
     if seq:
         suites += seq
     PROPS[pid] = dict(suites=suites, rule=rule, assumptions=BUF_ASSUME + list(extra_assume))
@@ -108,6 +118,10 @@ PROPS["C17"]["assumptions"] = PROPS["C17"]["assumptions"] + BUF_ASSUME[:2]
 
 def _c17l_tasks(tier, seed):
     return [("unit_c17_leftovers", (part, 16, seed)) for part in range(16)]
+
+
+def _weakhash_tasks(tier, seed):
+    return [("unit_weak_hash", (ci, seed)) for ci in range(5)]
 
 
 SPECIAL_C17L = _c17l_tasks
@@ -163,7 +177,7 @@ def _c11f_tasks(tier, seed):
     return [("unit_c11_foreign", (fam, seed)) for fam in range(6)]
 
 
-SPECIAL = {"c17l": SPECIAL_C17L, "iofault": _iofault_tasks, "c06h": _c06h_tasks, "c06s": _c06s_tasks, "awkward": _awkward_tasks, "c11f": _c11f_tasks}
+SPECIAL = {"c17l": SPECIAL_C17L, "weakhash": _weakhash_tasks, "iofault": _iofault_tasks, "c06h": _c06h_tasks, "c06s": _c06s_tasks, "awkward": _awkward_tasks, "c11f": _c11f_tasks}
 
 C08_SCENARIOS = ["dict_default", "dict_default_fresh", "dict_default_shorter", "dict_write_concern_nothreads",
                  "attrdict_default", "dict_plain_nothreads", "dict_threads_enabled_after_construction",
@@ -623,3 +637,11 @@ def _replay_c17l(prop, path, payload, ns):
 
 
 REPLAYERS["c17l"] = _replay_c17l
+
+
+def _replay_weakhash(prop, path, payload, ns):
+    import weakhash
+    return weakhash.replay(prop, path, payload, ns)
+
+
+REPLAYERS["weakhash"] = _replay_weakhash
